@@ -554,6 +554,22 @@ def emit(n, cx):
             return "4294967295", ("N", 32)
         if last in cx.consts:
             return cx.consts[last], ("N", None)
+        # a constant that is not an extraction point: inline its defining expression, looked up in
+        # the file being translated and then in src/constants.rs (derived constants stay tied)
+        depth = getattr(cx, "depth", 0)
+        if depth < 6:
+            for toks in (getattr(cx, "cur_toks", None), getattr(cx, "const_toks", None)):
+                if not toks:
+                    continue
+                c = locate(toks, {"kind": "const", "name_in_source": last})
+                if len(c) == 1:
+                    cx.depth = depth + 1
+                    try:
+                        sub = Parser(c[0], []).parse()
+                        body, ty = emit(sub, cx)
+                    finally:
+                        cx.depth = depth
+                    return "(" + body + ")", ty
         raise SyntaxError("unknown path %s (not a declared parameter or constant)" % nm)
     if op == "as":
         s, ty = emit(n.args[0], cx)
@@ -932,6 +948,11 @@ def main():
             try:
                 if path not in cache:
                     cache[path] = lex(open(path).read())
+                cx.cur_toks = cache[path]
+                cpath = os.path.join(a.repo, "src", "constants.rs")
+                if cpath not in cache and os.path.exists(cpath):
+                    cache[cpath] = lex(open(cpath).read())
+                cx.const_toks = cache.get(cpath)
                 src, body, ty, subs, params = translate_point(pt, cache[path], cx)
             except (LookupError, SyntaxError, OSError, AssertionError, KeyError, IndexError) as e:
                 misses.append({"area": area["name"], "point": pt["name"], "file": pt["file"],
